@@ -39,8 +39,9 @@ pub mod probes {
     pub const GEN_PUBLISHED: usize = 26;
     pub const PTR_SWAPPED: usize = 27;
     pub const INTO_INNER_PAID_RACE: usize = 28;
-    pub const FAST_FIRST_READ: usize = 29;
-    pub const NAMES: [&str; 30] = [
+    pub const READER_STORAGE: usize = 29;
+    pub const PAID_STORAGE: usize = 30;
+    pub const NAMES: [&str; 31] = [
         "fast_confirmed",
         "fast_changed_returned",
         "fast_changed_paid",
@@ -70,7 +71,8 @@ pub mod probes {
         "gen_published",
         "ptr_swapped",
         "into_inner_paid_race",
-        "fast_first_read",
+        "reader_storage",
+        "paid_storage",
     ];
 }
 
